@@ -1,0 +1,5 @@
+//go:build !verif
+
+package modules
+
+func verifTrue(point string, args ...any) bool { return true }
